@@ -1105,6 +1105,9 @@ func (f *fx) expr(x ast.Expr, e env) (string, ty) {
 		}
 		return s, ts
 	case *ast.SliceExpr:
+		if s, t, ok := f.bytesSlice(n, e); ok { // bytesbuf.go: p[lo:hi] on a []byte
+			return s, t
+		}
 		if !f.capMode() {
 			f.bad(n.Pos(), "slice expression (only in capacity-aware units)")
 		}
@@ -1359,6 +1362,9 @@ func (f *fx) selector(n *ast.SelectorExpr, e env) (string, ty) {
 }
 
 func (f *fx) composite(cl *ast.CompositeLit, e env) (string, ty) {
+	if s, t, ok := f.mapLit(cl, e); ok { // bytesbuf.go: map[K]V{k: v}
+		return s, t
+	}
 	if st, ok := cl.Type.(*ast.StructType); ok && (st.Fields == nil || len(st.Fields.List) == 0) && len(cl.Elts) == 0 {
 		return "0", ty{K: kElem} // struct{}{}
 	}
@@ -1625,6 +1631,9 @@ func (f *fx) sliceLit(els []string) string {
 }
 
 func (f *fx) call(c *ast.CallExpr, e env) (string, []ty, *funcInfo) {
+	if s, rs, ok := f.bufCall(c, e); ok { // bytesbuf.go: bytes.NewBuffer(b), buf.Bytes()
+		return s, rs, nil
+	}
 	if _, isSel := c.Fun.(*ast.SelectorExpr); c.Ellipsis != token.NoPos && !isSel {
 		fun := c.Fun
 		if ix, ok := fun.(*ast.IndexExpr); ok {
@@ -1703,6 +1712,9 @@ func (f *fx) call(c *ast.CallExpr, e env) (string, []ty, *funcInfo) {
 				a, ta := f.expr(c.Args[0], e)
 				if ta.K == kMap {
 					return "(GoMap.gm_len " + a + ")", []ty{{K: kInt}}, nil
+				}
+				if ta.K == kBytes { // bytesbuf.go
+					return "(GoJson.blen " + a + ")", []ty{{K: kInt}}, nil
 				}
 				if ta.K != kSlice {
 					f.bad(c.Pos(), "len of something that is not a slice")
@@ -2239,6 +2251,9 @@ func (f *fx) stmts(ss []ast.Stmt, e env, k cont, top bool) string {
 		if p, e2, ok := f.sortStmt(c, e); ok { // sorting.go: slices.Sort(x) / slices.SortFunc(x, cmp)
 			return p + next(e2)
 		}
+		if p, e2, ok := f.bufStmt(c, e); ok { // bytesbuf.go: buf.WriteRune('c') / buf.Write(p)
+			return p + next(e2)
+		}
 		if id, isId := c.Fun.(*ast.Ident); isId && id.Name == "panic" {
 			if !f.fi.Partial {
 				f.bad(n.Pos(), "internal: panic in a function not marked partial")
@@ -2249,6 +2264,9 @@ func (f *fx) stmts(ss []ast.Stmt, e env, k cont, top bool) string {
 		return p + next(e2)
 	case *ast.AssignStmt:
 		if f.isIterDefine(n, e) {
+			if ss, ok := f.iterHoist(n, rest); ok { // bytesbuf.go: definitions between the iterator and its loop
+				return f.stmts(ss, e, k, top)
+			}
 			return f.iterLoop(n, rest, e, k, top, false)
 		}
 		return f.assignStmt(n, e, next)
